@@ -20,6 +20,7 @@ import (
 	"os"
 	"strconv"
 	"sync"
+	"sync/atomic"
 	"testing"
 	"time"
 
@@ -189,6 +190,96 @@ func (r *ghRun) hammer(a map[string]interface{}) {
 	}
 }
 
+// appendHammer: rounds of concurrent appenders with identical and overlapping batches.  Each round governance creates
+// one or two sets, then 2..maxK goroutines, released together, hand batches lo..hi (lo anywhere between 1 and the
+// first unknown index) to updateGuardianSets or ask GetGuardianSet for the newest index (which fetches and appends).
+// The Call lines are written before the goroutines are released (an earlier invocation time only widens the
+// interval the specification may linearize in), the Ret lines by the goroutines; after each round the list is
+// projected under its lock (State) and the newest and one older index are looked up; at the end every index is.
+func (r *ghRun) appendHammer(a map[string]interface{}) {
+	rounds, maxK := vhInt(a, "rounds", 40), vhInt(a, "maxk", 8)
+	rnd := rand.New(rand.NewSource(int64(vhInt(a, "seed", 1))))
+	type job struct {
+		p      string
+		lookup bool
+		lo, hi int
+	}
+	for round := 0; round < rounds; round++ {
+		prev := r.chain.Top()
+		grown := 0
+		for g := 0; g < 1+rnd.Intn(2); g++ {
+			if r.chain.Grow(func(top int) { r.trace.Emit(r.sc, "ChainGrow", map[string]interface{}{"top": top}, nil) }) {
+				grown++
+			}
+		}
+		if grown == 0 {
+			break
+		}
+		top := r.chain.Top()
+		k := 2 + rnd.Intn(maxK-1)
+		jobs := make([]job, k)
+		for g := range jobs {
+			j := job{p: fmt.Sprintf("u%d", g+1)}
+			switch rnd.Intn(5) {
+			case 0:
+				j.lookup = true
+			case 1:
+				j.lo, j.hi = 1, top
+			case 2:
+				j.lo, j.hi = 1+rnd.Intn(prev+1), top
+			case 3:
+				j.lo, j.hi = prev+1, prev+1+rnd.Intn(top-prev)
+			default:
+				j.lo, j.hi = prev+1, top
+			}
+			jobs[g] = j
+			if j.lookup {
+				r.trace.Emit(r.sc, "LookupCall", map[string]interface{}{"p": j.p, "i": top}, nil)
+			} else {
+				r.trace.Emit(r.sc, "AppendCall", map[string]interface{}{"p": j.p, "lo": j.lo, "hi": j.hi}, nil)
+			}
+		}
+		var ready, done sync.WaitGroup
+		var gate int32
+		for _, j := range jobs {
+			j := j
+			ready.Add(1)
+			done.Add(1)
+			go func() {
+				defer done.Done()
+				ready.Done()
+				for atomic.LoadInt32(&gate) == 0 {
+				}
+				if j.lookup {
+					res := r.lookup(top)
+					r.trace.Emit(r.sc, "LookupRet", map[string]interface{}{"p": j.p, "i": top, "res": res}, nil)
+					return
+				}
+				pv := r.appendSets(j.lo, j.hi)
+				a := map[string]interface{}{"p": j.p}
+				if pv != nil {
+					a["panic"] = fmt.Sprint(pv)
+				}
+				r.trace.Emit(r.sc, "AppendRet", a, nil)
+			}()
+		}
+		ready.Wait()
+		atomic.StoreInt32(&gate, 1)
+		done.Wait()
+		r.trace.Emit(r.sc, "State", map[string]interface{}{}, r.snapshot())
+		for _, i := range []int{top, rnd.Intn(top + 1)} {
+			r.trace.Emit(r.sc, "LookupCall", map[string]interface{}{"p": "m", "i": i}, nil)
+			res := r.lookup(i)
+			r.trace.Emit(r.sc, "LookupRet", map[string]interface{}{"p": "m", "i": i, "res": res}, r.snapshot())
+		}
+	}
+	for i := 0; i <= r.chain.Top(); i++ {
+		r.trace.Emit(r.sc, "LookupCall", map[string]interface{}{"p": "m", "i": i}, nil)
+		res := r.lookup(i)
+		r.trace.Emit(r.sc, "LookupRet", map[string]interface{}{"p": "m", "i": i, "res": res}, r.snapshot())
+	}
+}
+
 func ghRunScenario(trace *vhTrace, keys *vhKeys, sc vhScenario) {
 	init := sc.Bodies["init"]
 	up := vhBool(init, "up")
@@ -236,6 +327,8 @@ func ghRunScenario(trace *vhTrace, keys *vhKeys, sc vhScenario) {
 			trace.Emit(r.sc, "AppendRet", a, r.snapshot())
 		case "Hammer":
 			r.hammer(st.A)
+		case "AppendHammer":
+			r.appendHammer(st.A)
 		}
 	}
 }
